@@ -2,6 +2,7 @@
 //! one ndjson event per call with the projected abstract state (see /verif/DESIGN.md section 5).
 mod common;
 mod cw20;
+mod thr;
 
 use common::*;
 use serde_json::Value;
@@ -62,6 +63,15 @@ fn main() {
         }
     }
     let mut rng = Rng::new(seed);
+    if sys == "thr" {
+        // --mode grid:<MaxT> enumerates the complete small domain; --random N adds N cases at u64 magnitudes
+        if let Some(mt) = mode.strip_prefix("grid:") {
+            thr::grid(mt.parse().unwrap(), &mut out);
+        }
+        thr::random_big(&mut rng, random, &mut out);
+        out.finish(stats.as_deref());
+        return;
+    }
     for _ in 0..random {
         run_no += 1;
         match sys.as_str() {
